@@ -8,6 +8,8 @@ pub mod c07;
 pub mod c08;
 pub mod c09;
 pub mod c10;
+pub mod c11;
+pub mod c12;
 pub mod c15;
 pub mod c17;
 pub mod c04;
@@ -30,6 +32,8 @@ pub fn all() -> Vec<Box<dyn Property>> {
         Box::new(c08::P),
         Box::new(c09::P),
         Box::new(c10::P),
+        Box::new(c11::P),
+        Box::new(c12::P),
         Box::new(c15::P),
         Box::new(c17::P),
         Box::new(c18::P),
